@@ -106,12 +106,13 @@ OrderPreserved == /\ \A g \in 1..Len(groups) : \A j \in 1..(Len(groups[g].vals) 
 NoEmptyGroup == \A g \in 1..Len(groups) : groups[g].vals # <<>>
 \* the three formulations coincide on the whole universe of contexts; SameGroup is an equivalence
 AtStart == pos = 0 /\ flow = <<>>
-KeyCharacterises == AtStart =>
-  \A i, j \in 1..NC : i <= j =>
+KeyChar(i) ==
+  \A j \in 1..NC : i <= j =>
      LET s == SameGroup(CtxSeq[i], CtxSeq[j], G, M) IN
        /\ s <=> (Sig(CtxSeq[i], G, M) = Sig(CtxSeq[j], G, M))
        /\ s <=> (Proj(CtxSeq[i], G, M) = Proj(CtxSeq[j], G, M))
        /\ s <=> SameGroup(CtxSeq[j], CtxSeq[i], G, M)
+KeyCharacterises == AtStart => \A i \in 1..NC : KeyChar(i)
 PartitionIsEquivalence == AtStart =>
   LET R(i, j) == SameGroup(CtxSeq[i], CtxSeq[j], G, M) IN
   /\ \A i \in 1..NC : R(i, i)
@@ -124,8 +125,18 @@ OwnerIsLongest == AtStart => \A p \in AllPaths : Selected(p, G, M) <=> (Owner(p,
 DefaultsOneGroup == (G = {} /\ M = {<<>>}) => Len(groups) <= 1
 WholeContext == (G = {<<>>} /\ M = {}) => \A i, j \in 1..pos : (GroupOf(i) = GroupOf(j)) <=> flow[i] = flow[j]
 \* the selected part is a sub-context: nothing is invented
-ProjIsPart == AtStart => \A i \in 1..NC : \A p \in Paths(Proj(CtxSeq[i], G, M)) :
-                 At(Proj(CtxSeq[i], G, M), p) = At(CtxSeq[i], p)
+ProjPart(i) == \A p \in Paths(Proj(CtxSeq[i], G, M)) : At(Proj(CtxSeq[i], G, M), p) = At(CtxSeq[i], p)
+ProjIsPart == AtStart => \A i \in 1..NC : ProjPart(i)
+
+\* The same relation checks over a large universe of contexts, one context per state so that
+\* TLC's workers share them: pos walks through the universe.
+RInit == /\ \E gm \in GMs : G = gm[1] /\ M = gm[2]
+         /\ flow = <<>> /\ pos = 0 /\ groups = <<>>
+RNext == pos < NC /\ pos' = pos + 1 /\ UNCHANGED <<G, M, flow, groups>>
+RSpec == RInit /\ [][RNext]_vars
+KeyCharStep == pos > 0 => KeyChar(pos)
+ProjPartStep == pos > 0 => ProjPart(pos)
+OwnerStep == pos = 0 => \A p \in AllPaths : Selected(p, G, M) <=> (Owner(p, G, M) \in G)
 
 (***************************************************************************)
 (* Export (S2C).                                                           *)
